@@ -346,9 +346,43 @@ def rand_ghw(rng):
             tn, lits = rng.choice(ENUMS)
             v = fg.Var(name, "enum", literals=lits, type_name=tn, rtik=22 if len(lits) == 2 and rng.random() < 0.7 else 23, **extra)
         vs.append(v)
+    # composite signals: arrays of non-bit elements (a scope whose elements are labelled with their declared index, in the
+    # declared direction) and records (a scope with one variable per field)
+    import copy
+    units = []
+    k = 0
+    while k < len(vs):
+        v = vs[k]
+        r = rng.random()
+        if r < 0.2 and not (v.kind in ("logic", "bit") and v.rng is None):
+            n = rng.randrange(1, 5)
+            lo = rng.choice([0, 0, 1, 5])
+            left, right = rng.choice([(lo + n - 1, lo), (lo, lo + n - 1)])
+            step = -1 if left > right else 1
+            elems = []
+            for idx in range(left, right + step, step):
+                e = copy.deepcopy(v)
+                e.name = "[%d]" % idx
+                elems.append(e)
+            units.append(fg.Scope(v.name, elems, kind="ghw_array", dir=v.extra.get("dir", "signal"),
+                                  composite=["array", left, right, rng.choice(["int_array", "mem_t", "arr_t"]) + "_" + v.kind,
+                                             rng.choice([None, "sub_" + v.name])]))
+            k += 1
+        elif r < 0.32 and k + 1 < len(vs):
+            n = min(rng.randrange(2, 4), len(vs) - k)
+            fields = vs[k:k + n]
+            d = fields[0].extra.get("dir", "signal")
+            for j, f in enumerate(fields):
+                f.extra["dir"] = d
+            units.append(fg.Scope(fresh(rng, used, "rec"), fields, kind="ghw_record", dir=d,
+                                  composite=["record", rng.choice(["rec_t", "pair_t", "bus_t"]) + "_%d" % k]))
+            k += n
+        else:
+            units.append(v)
+            k += 1
     top = []
     stack = [top]
-    for v in vs:
+    for v in units:
         if rng.random() < 0.3:
             s = fg.Scope(fresh(rng, used, "u"), [], kind=rng.choice(["instance", "package", "block", "generate_if", "generic"]))
             stack[-1].append(s)
@@ -357,6 +391,7 @@ def rand_ghw(rng):
         if len(stack) > 1 and rng.random() < 0.3:
             stack.pop()
     items = [fg.Scope("top", top, kind="instance")]
+    vs = fg.all_vars(items)
     # rounds: times with delta cycles (same time) allowed
     n = rng.randrange(2, 12)
     t = rng.choice([0, 0, 7])
